@@ -69,7 +69,7 @@ def work(ctx):
                 pass
         ctx.sample({"origin": origin, "name": k.co_name, "instructions": len(disview.dis_instructions(k))})
 
-    for origin, k in corpus.code_objects(ctx.tier, rng):
+    for origin, k in corpus.code_objects(ctx.tier, rng, huge=True):
         check(origin, k)
     # line tables at the assembler's boundaries, on real code objects
     for what, k in linecodes.boundary_codes(rng, ctx.quick):
